@@ -221,6 +221,9 @@ def multi_document(faults):
     lines += meas("m_ok")
     if "unknown" in f:
         lines += meas("m_unknown", extra=["UNKNOWN_KEYWORD_X 1 2"])
+        # ... with the token that follows the unknown tag on a later line (the diagnostic names the line of the tag)
+        lines += meas("m_unknown_alone", extra=["UNKNOWN_KEYWORD_Y", "ECU_ADDRESS 0x30"])
+        lines += meas("m_unknown_block", extra=["/begin UNKNOWN_BLOCK_Z", "  1 2", "/end UNKNOWN_BLOCK_Z"])
     if "toomany" in f:
         lines += meas("m_toomany", extra=["BIT_MASK 0x1", "BIT_MASK 0x2"])
     if "strforid" in f:
